@@ -36,6 +36,7 @@ type (
 		wgBarrier   syncx.Barrier
 		confirmChan chan lang.PlaceholderType
 		inflight    int32
+		handedOver  *sync.Cond
 		guarded     bool
 		newTicker   func(duration time.Duration) timex.Ticker
 		lock        sync.Mutex
@@ -54,6 +55,7 @@ func NewPeriodicalExecutor(interval time.Duration, container TaskContainer) *Per
 			return timex.NewTicker(d)
 		},
 	}
+	executor.handedOver = sync.NewCond(&executor.lock)
 	proc.AddShutdownListener(func() {
 		executor.Flush()
 	})
@@ -89,6 +91,13 @@ func (pe *PeriodicalExecutor) Sync(fn func()) {
 // Wait 等待执行完成。
 func (pe *PeriodicalExecutor) Wait() {
 	pe.Flush()
+	// 达到阈值的 Add 在锁内取走的批次，要等后台协程收到后才登记到 waitGroup；
+	// 先等这些交接完成（inflight 归零），否则 Wait 可能在该批次执行之前返回。
+	pe.lock.Lock()
+	for atomic.LoadInt32(&pe.inflight) > 0 {
+		pe.handedOver.Wait()
+	}
+	pe.lock.Unlock()
 	pe.wgBarrier.Guard(func() {
 		pe.waitGroup.Wait()
 	})
@@ -162,8 +171,12 @@ func (pe *PeriodicalExecutor) backgroundFlush() {
 			select {
 			case tasks := <-pe.commander:
 				commanded = true
-				atomic.AddInt32(&pe.inflight, -1)
+				// 先登记执行再减少 inflight：被取走的批次始终计入 inflight 或 waitGroup
 				pe.enterExecution()
+				pe.lock.Lock()
+				atomic.AddInt32(&pe.inflight, -1)
+				pe.handedOver.Broadcast()
+				pe.lock.Unlock()
 				pe.confirmChan <- lang.Placeholder
 				pe.executeTasks(tasks)
 				last = timex.Now()
